@@ -1,14 +1,85 @@
-(** C20 — the debtags database keeps its two indexes mutually inverse.  (work in progress) *)
-From Verif Require Import Lib.Base Debtags.StrSet Debtags.Model Debtags.Spec.
+(** C20 — the debtags database keeps its two indexes mutually inverse.
+    Only statements; every proof is [exact <lemma>].
 
-Definition Inv (c : coll) : Prop :=
-  forall p t, In p (packages_of_tag c t) <-> In t (tags_of_package c p).
+    Model: Debtags/Model.v (linear layer [step]/[run], heap layer [hstep]);
+    spec: Debtags/Spec.v; proofs: Debtags/SetProofs.v, DictProofs.v, Proofs.v. *)
+From Verif Require Import Lib.Base Debtags.StrSet Debtags.Model Debtags.Spec Debtags.Proofs.
 
+(** [Inv c] (Debtags/Proofs.v): a package is listed under a tag exactly when the tag
+    is listed for the package. *)
+Goal forall c, Inv c =
+  (forall p t, In p (packages_of_tag c t) <-> In t (tags_of_package c p)).
+Proof. reflexivity. Qed.
+
+(** 1. inverse_invariant, model with the one-token repair of K1 ([set((pkg,))]):
+       unconditional.  From ANY well-formed collection ([coll_wf]: distinct keys, sets
+       sorted, indexes inverse — the empty DB is one) and for ANY sequence of read /
+       insert / derivation steps inside the property's domain ([hist_dom]: tag files
+       with distinct package names, inserts of packages not yet known), the indexes
+       are mutually inverse afterwards. *)
+Theorem C20_inverse_invariant_repaired :
+  forall c ops, coll_wf c = true -> hist_dom true c ops = true -> Inv (run true c ops).
+Proof. exact inverse_invariant_repaired. Qed.
+
+(** 2. inverse_invariant, code as written: under the side condition that no step
+       executes K1's trigger ([k1_free]: no first insert under a tag not yet in rdb
+       with a package name of length <> 1). *)
+Theorem C20_inverse_invariant :
+  forall c ops, coll_wf c = true -> hist_dom false c ops = true -> k1_free c ops = true ->
+    Inv (run false c ops).
+Proof. exact inverse_invariant_faithful. Qed.
+
+(** 3. off the trigger the code as written and the repaired code are the same function *)
+Theorem C20_faithful_eq_repaired_off_trigger :
+  forall ops c, k1_free c ops = true -> run false c ops = run true c ops.
+Proof. exact run_faithful_eq_repaired. Qed.
+
+Theorem C20_insert_eq_repaired_off_trigger :
+  forall c pkg tags, ins_trigger c pkg tags = false -> insert false c pkg tags = insert true c pkg tags.
+Proof. exact insert_faithful_eq_repaired. Qed.
+
+(** 4. the side condition is exact: an insert that executes the trigger always
+       breaks the invariant (whatever the collection). *)
+Theorem C20_trigger_breaks_invariant :
+  forall c pkg tags, ins_trigger c pkg (set_of_list tags) = true ->
+    ~ Inv (insert false c pkg (set_of_list tags)).
+Proof. exact trigger_breaks_inv. Qed.
+
+(** 5. K1: the invariant is refuted for the code as written. *)
 Theorem C20_inverse_invariant_refuted :
   exists pkg tags, ~ Inv (insert false empty_coll pkg tags).
 Proof.
-  exists [112; 107; 103]%N, [[116%N]]. intros H.
-  specialize (H [112%N] [116%N]). vm_compute in H.
-  destruct H as [H _]. apply H. right; right; left; reflexivity.
+  exists [112; 107; 103]%N, (set_of_list [[116%N]]).
+  exact (trigger_breaks_inv empty_coll [112; 107; 103]%N [[116%N]] eq_refl).
 Qed.
+
+(** 6. every query method agrees with the reference relation obtained by running
+       the Spec operations on the relation the initial collection stands for. *)
+Theorem C20_queries_agree_repaired :
+  forall c ops, coll_wf c = true -> hist_dom true c ops = true ->
+    queries_agree (run true c ops) (spec_run (rel_of c) ops).
+Proof. exact queries_agree_repaired. Qed.
+
+Theorem C20_queries_agree :
+  forall c ops, coll_wf c = true -> hist_dom false c ops = true -> k1_free c ops = true ->
+    queries_agree (run false c ops) (spec_run (rel_of c) ops).
+Proof. exact queries_agree_faithful. Qed.
+
+(** [choose_packages_copy] raises KeyError exactly when the Spec says so *)
+Theorem C20_choose_copy_keyerror :
+  forall fx c ops l, coll_wf c = true -> hist_dom true c ops = true ->
+    step fx (run true c ops) (OChooseCopy l) = Err KeyError
+    <-> forallb (q_has_package (spec_run (rel_of c) ops)) l = false.
+Proof.
+  intros fx c ops l Hc Hd. apply choose_copy_error, run_repr; [now apply coll_wf_repr|assumption].
+Qed.
+
+Print Assumptions C20_inverse_invariant_repaired.
+Print Assumptions C20_inverse_invariant.
+Print Assumptions C20_faithful_eq_repaired_off_trigger.
+Print Assumptions C20_insert_eq_repaired_off_trigger.
+Print Assumptions C20_trigger_breaks_invariant.
 Print Assumptions C20_inverse_invariant_refuted.
+Print Assumptions C20_queries_agree_repaired.
+Print Assumptions C20_queries_agree.
+Print Assumptions C20_choose_copy_keyerror.
